@@ -23,6 +23,9 @@ CHECKS["C07"] = ("constructive order specification vs. row_order/column_order (s
 CHECKS["C09"] = ("respondent-level emptiness oracle vs. displayed element/subtotal sets (Hypothesis)",
     "Generated-input search with zero-heavy and fractional weights, never-selected / never-shown items and all hide/prune combinations on 2-D, 3-D and 1-D partitions; displayed sets, shape, is_empty and labels are compared with 'visible iff not hidden and not (prune and empty by unweighted eligibility)' and the subtotal rule.",
     "Emptiness rule is the statement's (MR: selected+not-selected, except MR x MR).", "6 C09")
+CHECKS["C05"] = ("metamorphic relation: every public output of a transformed run == the untransformed output re-indexed by row_order()/column_order() (Hypothesis; outputs enumerated by introspection)",
+    "Generated-input search: for random surveys, insertions and random order (explicit, payload, every sort-by-value type with fixed lists incl. repeats) + hide + prune on both dimensions, all ~120 public lazyproperties of _Slice (and ~60 of _Strand) and the pairwise methods are snapshotted with and without the display transforms and compared through the reported signed display order; duplicates, extents, scalars, position-valued outputs included. Two defects fixed, three recorded as known findings.",
+    "Partitions with every row or column hidden have only shape/labels/codes judged; outputs that raise without any display transform are treated as unavailable.", "6 C05")
 NOT_BUILT = {}
 
 def main():
